@@ -89,7 +89,7 @@ func configs(tierName string, r *core.Rand) []Config {
 	logs := []string{"OFF", "OFF", "DEBUG"}
 	n := 60
 	if *lean {
-		n = 40 // the race detector costs 5-15x
+		n = 30 // the race detector costs 5-15x
 	}
 	ops := 60
 	if tierName == "thorough" {
